@@ -93,7 +93,7 @@ def _long_work(units):
             with quiet():
                 ev.recompile(long_text(1).replace('"L"', '"M"'))
             bad = 0
-            for u in list(range(n)) + list(range(n // 2)):
+            for u in list(range(n))[::-1] + list(range(n)):  # most recently served units first
                 got = impl.call(ev, {"uid": u})
                 out["cov"]["transitions"] = out["cov"].get("transitions", 0) + 1
                 why = oracle.agree(got, oracle.expected(a1, {"uid": u}))
